@@ -5,6 +5,7 @@ import (
 	"fmt"
 	"io"
 	"os"
+	"runtime"
 	"strings"
 	"sync"
 	"time"
@@ -22,6 +23,61 @@ type Rec struct {
 	armKind string // when set, only operations of this kind count
 	TripAt  string // the storage operation that did not happen any more
 	onTrip  func() // takes the directory image and cuts the incarnation off; runs inside the storage call
+	curIS   *[2]uint64 // label (index, term) of the InstallSnapshot request whose handler runs now (set by the scheduler)
+	Mixed   []MixEvent // a chunk of one snapshot was written into (or closed) the received file of another
+}
+
+// MixEvent: the handler of a request labelled Req wrote to, or closed, the file created for File.
+type MixEvent struct {
+	File, Req [2]uint64
+	Op        string
+}
+
+// SetIS tells the recorder which InstallSnapshot request is being handled. The handler writes
+// and closes the received file before it first releases the node's mutex, and the scheduler
+// delivers one request at a time, so the request in force during those calls is this one.
+func (r *Rec) SetIS(idx, term uint64) {
+	r.mu.Lock()
+	r.curIS = &[2]uint64{idx, term}
+	r.mu.Unlock()
+}
+func (r *Rec) ClearIS() {
+	r.mu.Lock()
+	r.curIS = nil
+	r.mu.Unlock()
+}
+func (r *Rec) TakeMixed() []MixEvent {
+	r.mu.Lock()
+	defer r.mu.Unlock()
+	out := r.Mixed
+	r.Mixed = nil
+	return out
+}
+func (r *Rec) mixCheck(f *recSnapFile, op string) {
+	if !f.received {
+		return
+	}
+	r.mu.Lock()
+	if r.curIS != nil && *r.curIS != f.label {
+		r.Mixed = append(r.Mixed, MixEvent{File: f.label, Req: *r.curIS, Op: op})
+	}
+	r.mu.Unlock()
+}
+
+// inInstallSnapshot: is the calling goroutine inside the InstallSnapshot handler?
+func inInstallSnapshot() bool {
+	pc := make([]uintptr, 24)
+	n := runtime.Callers(2, pc)
+	fr := runtime.CallersFrames(pc[:n])
+	for {
+		f, more := fr.Next()
+		if strings.HasSuffix(f.Function, "(*Raft).InstallSnapshot") {
+			return true
+		}
+		if !more {
+			return false
+		}
+	}
 }
 
 // gate is called at the start of every storage operation: an armed crash point fires between two
@@ -128,8 +184,10 @@ type RecSnap struct {
 
 type recSnapFile struct {
 	raft.SnapshotFile
-	rec    *Rec
-	writer bool
+	rec      *Rec
+	writer   bool
+	received bool      // created by the InstallSnapshot handler (not by the node's own snapshot)
+	label    [2]uint64 // (index, term) it was created for
 }
 
 func (s *RecSnap) NewSnapshotFile(i, t uint64, c []byte) (raft.SnapshotFile, error) {
@@ -138,15 +196,17 @@ func (s *RecSnap) NewSnapshotFile(i, t uint64, c []byte) (raft.SnapshotFile, err
 	if err != nil {
 		return nil, err
 	}
-	return &recSnapFile{SnapshotFile: f, rec: s.rec, writer: true}, nil
+	return &recSnapFile{SnapshotFile: f, rec: s.rec, writer: true, received: inInstallSnapshot(), label: [2]uint64{i, t}}, nil
 }
 func (f *recSnapFile) Write(p []byte) (int, error) {
 	f.rec.add(fmt.Sprintf("sw(%d)", len(p)))
+	f.rec.mixCheck(f, "write")
 	return f.SnapshotFile.Write(p)
 }
 func (f *recSnapFile) Close() error {
 	if f.writer {
 		f.rec.add("sc")
+		f.rec.mixCheck(f, "close")
 	}
 	return f.SnapshotFile.Close()
 }
